@@ -273,8 +273,8 @@ impl Property for P {
     }
     fn workloads(&self, tier: Tier) -> Vec<Workload> {
         vec![
-            Workload::new("responses", tier.pick(3_000, 100_000), false, "response heads x prefixes, complete + partial parser"),
-            Workload::new("requests", tier.pick(3_000, 100_000), false, "request heads x prefixes"),
+            Workload::new("responses", tier.pick(3_000, 400_000), false, "response heads x prefixes, complete + partial parser"),
+            Workload::new("requests", tier.pick(3_000, 400_000), false, "request heads x prefixes"),
         ]
     }
     fn run_case(&self, wl: &str, idx: u64, seed: u64, rec: &mut Rec) {
